@@ -438,7 +438,7 @@ mutual
           else
             match expand v (v :: inProg) with
             | some r => some r                        -- `source = computed[v]`, resolved
-            | none => some (resFallback expand (v :: inProg) args true)  -- `source = default_`
+            | none => some (resFallback expand (v :: inProg) args false)  -- `source = default_`
         | _ => none   -- unreachable: hasVar on `var(` ⇒ the first argument is an ident
     | _ => none       -- hasVar is false on non-functions
   /-- `for _, x := range xs { if r := resolveVarRec(x); r != nil { append r... } else { append x } }` -/
@@ -448,21 +448,22 @@ mutual
       match resTok expand inProg t with
       | some r => r ++ resList expand inProg rest
       | none => t :: resList expand inProg rest
-  /-- the same loop over `default_ = args[1:]` of ParseFunction, walked on the RAW arguments:
-      whitespace, comments and commas are not in `args`; `first` = the name argument is still to be skipped -/
+  /-- the same loop over `default_ = RemoveWhitespace(fn.Arguments[i+1:])`, `i` the FIRST comma of the RAW
+      arguments (the fallback keeps its own commas; whitespace and comments of that level are dropped);
+      `after` = the first comma has been passed -/
   def resFallback (expand : String → List String → Option (List Tok)) (inProg : List String) : List Tok → Bool → List Tok
     | [], _ => []
-    | .ws :: rest, first => resFallback expand inProg rest first
-    | .comment _ :: rest, first => resFallback expand inProg rest first
-    | .lit s :: rest, first =>
-      if s = "," then resFallback expand inProg rest first
-      else if first then resFallback expand inProg rest false
-      else .lit s :: resFallback expand inProg rest false
-    | t :: rest, first =>
-      if first then resFallback expand inProg rest false
+    | .ws :: rest, after => resFallback expand inProg rest after
+    | .comment _ :: rest, after => resFallback expand inProg rest after
+    | .lit s :: rest, after =>
+      if after then .lit s :: resFallback expand inProg rest true
+      else if s = "," then resFallback expand inProg rest true
+      else resFallback expand inProg rest false
+    | t :: rest, after =>
+      if !after then resFallback expand inProg rest false
       else match resTok expand inProg t with
-        | some r => r ++ resFallback expand inProg rest false
-        | none => t :: resFallback expand inProg rest false
+        | some r => r ++ resFallback expand inProg rest true
+        | none => t :: resFallback expand inProg rest true
 end
 
 /-- the value of custom property `v`, resolved, when `v` is defined with a non-empty value among the
